@@ -12,7 +12,7 @@ func init() {
 	register(&Check{
 		ID:    "C16",
 		Level: "exploration",
-		Rule: "exhaustive: every byte 0x01..0x7f x every spelling (raw, \\xHH, \\xhh, named escape, backslash-char) x both quote styles; every PAIR of bytes (all 127x127) in every spelling combination; every string of <= 6 (thorough 7) chars over {\\, x, 0, a, G, ', \"} as a literal body in both quote styles; 13 escape shapes at every source offset within 16 bytes of the lexer's read-buffer boundaries 4096 and 8192 (shifted by blanks before the command and by plain characters inside the literal); " +
+		Rule: "exhaustive: every byte 0x01..0x7f x every spelling (raw, \\xHH, \\xhh, named escape, backslash-char) x both quote styles; every PAIR of bytes (all 127x127) in every spelling combination; every string of <= 6 (thorough 7) chars over {\\, x, 0, a, G, ', \"} as a literal body in both quote styles; every string of <= 5 chars over {\\, x, X, +, -, 4, a}; 13 escape shapes at every source offset within 16 bytes of the lexer's read-buffer boundaries 4096 and 8192 (shifted by blanks before the command and by plain characters inside the literal); " +
 			"oracle: an independent decoder; the parsed literal value must equal the decoded bytes, `find all <literal>` must match the decoded text exactly once and in full, and must not match any one-byte perturbation of it; non-trivial = distinct literals containing at least one escape",
 		Assume: []string{"ASCII only (0x01..0x7f); a NUL byte ends the lexer's input and is excluded by the property"},
 		Budget: map[string]int{"quick": 120, "thorough": 900},
@@ -294,6 +294,28 @@ func runC16(c *Ctx) {
 					}
 				}
 			}
+		}
+	}
+	// what may follow `\x`: signs, an upper-case X, a digit (every body of <= 5 chars over 7 symbols)
+	if c.Level("bodies2:len<=5") {
+		alpha2 := "\\xX+-4a"
+		for l := 1; l <= 5; l++ {
+			var gen func(cur []byte)
+			gen = func(cur []byte) {
+				if len(cur) == l {
+					body := string(cur)
+					if c.Unit(func() string { return "body " + strQuote(body) }) {
+						for _, q := range quotes {
+							c16Literal(c, body, q)
+						}
+					}
+					return
+				}
+				for i := 0; i < len(alpha2); i++ {
+					gen(append(cur, alpha2[i]))
+				}
+			}
+			gen(nil)
 		}
 	}
 	maxLen := c.Pick(6, 7)
